@@ -18,7 +18,7 @@ git -C /verif archive HEAD | tar -x -C "$BASE/verif"      # committed state of /
 rm -rf "$BASE/verif/evidence" "$BASE/verif/replays"; mkdir -p "$BASE/verif/evidence" "$BASE/verif/replays"
 cd "$BASE/verif"
 for pid in "$@"; do
-  PYTHONPATH="$BASE/repo/src" PYVC_REPO_SRC="$BASE/repo/src" VERIF_SEED=${VERIF_SEED:-1} timeout 3600 ./check "$pid" --tier quick > "$BASE/out_$pid.txt" 2>&1
+  PYTHONPATH="$BASE/repo/src" PYVC_REPO_SRC="$BASE/repo/src" VERIF_SEED=${VERIF_SEED:-1} timeout 5400 ./check "$pid" --tier ${SEED_TIER:-quick} > "$BASE/out_$pid.txt" 2>&1
   echo "exit=$?" >> "$BASE/out_$pid.txt"
 done
 cd /; git -C /repo worktree remove --force "$BASE/repo" >/dev/null 2>&1
